@@ -291,3 +291,18 @@ Proof.
   unfold ring_iter. generalize (iter_start r b). generalize (ring_size r).
   induction n as [|n IH]; intros s; cbn [iter_walk length]; auto.
 Qed.
+
+Lemma abs_init ds : ring_abs (ring_init ds) = {| q_items := []; q_cap := ds; q_ovr := false |}.
+Proof.
+  unfold ring_abs, ring_abs_items, ring_size, ring_empty, ring_init; cbn [r_tail r_ds r_ovr r_data r_head].
+  rewrite Nat.eqb_refl. reflexivity.
+Qed.
+
+Theorem from_init ds ops : 1 <= ds ->
+  let r := fst (ring_run (ring_init ds) ops) in
+  let q0 := {| q_items := []; q_cap := ds; q_ovr := false |} in
+  ring_inv r /\ snd (ring_run (ring_init ds) ops) = snd (queue_run q0 ops) /\ ring_abs r = fst (queue_run q0 ops).
+Proof.
+  intros H r q0. pose proof (run_refines ops (ring_init ds) (init_inv ds H)) as R.
+  rewrite abs_init in R. exact R.
+Qed.
